@@ -1,6 +1,7 @@
 package dbt
 
 import (
+	"bytes"
 	"encoding/hex"
 	"math"
 	"os"
@@ -29,7 +30,7 @@ func (e *Env) tokens() V {
 				l = append(l, hex.EncodeToString(raw))
 			}
 		}
-		out[h.String()] = l
+		out[h[0]+"/"+h[1]] = l // database and collection kept apart: "d" + "fs.files" is not "d.fs" + "files"
 	}
 	return out
 }
@@ -55,6 +56,10 @@ func (e *Env) Reopen() bool {
 		return false
 	}
 	e.Client, e.Engine = client, engine
+	if e.Hist%2 == 1 {
+		// the leftover of a write that was interrupted earlier: the next commit has to cope with it
+		_ = os.WriteFile(e.Path+".tmp", bytes.Repeat([]byte{0xAB}, 1<<20), 0666)
+	}
 	post, evsAfter, ts := e.Obs(nil)
 	e.Trace.Write(V{"fn": "reload", "hist": e.Hist, "step": e.Step, "pre": pre, "post": post, "pretok": pretok, "posttok": e.tokens(), "preev": evsBefore, "postev": evsAfter,
 		"ts": ts, "err": false, "msg": ""})
@@ -133,6 +138,12 @@ func FidelityScenario(e *Env) {
 		}
 	}
 	e.Do(e.InsertOne("d.other", d("_id", int32(1), "a", d("b", int32(1)))))
+	// collection names with dots (GridFS style), next to a database whose name is a prefix of them
+	e.Do(e.CreateIndex("d.fs.files", IndexSpec{Key: d("filename", int32(1)), Unique: true, Expire: -1}))
+	e.Do(e.InsertMany("d.fs.files", []bson.D{d("_id", int32(1), "filename", "a"), d("_id", int32(2), "filename", "b")}, true))
+	e.Do(e.InsertOne("d.fs.chunks", d("_id", int32(1), "n", int32(0))))
+	e.Do(e.InsertOne("d.m.2024.q1", d("_id", int32(1))))
+	e.Do(e.InsertOne("d.fs", d("_id", int32(1))))
 	e.Do(e.Update(ns, true, d("_id", d("$lt", int32(5))), d("$set", d("z", int32(1))), false, nil))
 	e.Do(e.Delete(ns, false, d("_id", int32(3))))
 	e.Reopen()
@@ -141,6 +152,9 @@ func FidelityScenario(e *Env) {
 	e.Do(e.InsertOne(ns, d("_id", int32(1000), "u", int32(4), "v", dec128("1.00"))))
 	e.Do(e.InsertOne(ns, d("_id", int32(1001), "u", int32(4), "v", int32(1))))
 	e.Do(e.InsertOne("d.other", d("_id", int32(2), "a", d("b", int64(1)))))
+	e.Do(e.InsertOne("d.fs.files", d("_id", int32(3), "filename", "a")))
+	e.Do(e.Find("d.fs.files", d(), d("_id", int32(1)), nil, 0, 0))
+	e.Do(e.Count("d.m.2024.q1", d(), 0, 0))
 	e.Do(e.CreateIndex(ns, IndexSpec{Key: d("v", int32(1)), Expire: -1}))
 	e.Do(e.CreateIndex(ns, IndexSpec{Key: d("t", int32(1)), Expire: 5}))
 	e.Do(e.Find(ns, d(), d("v", int32(1)), nil, 0, 5))
@@ -184,6 +198,10 @@ func RetainReload(base *Env, dir string) *Env {
 		return &e
 	}
 	e.Client, e.Engine = client, engine
+	if e.Hist%2 == 1 {
+		// the leftover of a write that was interrupted earlier: the next commit has to cope with it
+		_ = os.WriteFile(e.Path+".tmp", bytes.Repeat([]byte{0xAB}, 1<<20), 0666)
+	}
 	post, evsAfter, ts := e.Obs(nil)
 	e.Trace.Write(V{"fn": "reload", "hist": e.Hist, "step": 1, "pre": pre, "post": post, "pretok": pretok, "posttok": e.tokens(), "preev": evsBefore, "postev": evsAfter, "ts": ts, "err": false, "msg": "",
 		"trimmed": len(evsBefore) < 7})
